@@ -19,19 +19,21 @@ RUNS = {"quick": 4800, "thorough": 60000, "thorough_s": 400}
 CHUNK = 50
 RUN_TIMEOUT = 300.0
 APPROACH_EVERY = 12
-ORIENTED_EVERY, ORIENTED_AT = 200, 100
+ORIENTED_EVERY, ORIENTED_AT = 120, 60
 FINDING = "C12.approach.label-orientation"
-DIGEST_EXTRA = (100, 300, 500, 700)        # label-layout / prepared-start runs, for the determinism self-test
+DIGEST_EXTRA = (60, 180, 300, 420, 540, 660)        # label-layout / prepared-start / clique-network runs, for the determinism self-test
 RULE = ("(a) the C11 rewiring scenarios with the removal axis stressed (pairings unused by existing edges made absent / "
         "zero / mixed in the target), prefix histories, every created edge checked against the target; (b) every "
         f"{APPROACH_EVERY}th run: network of 150-300 vertices from the real sampler + network generator under the scheduler "
         "(unclean outcomes rejected), strongly assortative or disassortative full-support target at L1 distance >= 0.5, "
-        "|E|/4 accepted swaps under uniform decisions, distance after < before; (c) every 200th run: directly built 2-clique "
+        "|E|/4 accepted swaps under uniform decisions, distance after < before; (c) every 120th run: directly built 2-clique "
         "network of 1200-3500 edges with 2-4 degree classes, vertex labels in ascending / descending order of degree or "
         "shuffled, mildly assortative / disassortative full-support target with the network's own marginals at >= 4x the "
         "sampling noise, |E| accepted swaps, distance after < before; half of them start from neutral mixing, half from a "
         "start the harness's own reference chain prepared BEYOND the target (so that drifting back to neutral mixing ends "
-        "farther away); a failure on a label-sorted network whose label-shuffled twin approaches is the open finding "
+        "farther away); a third of them are MULTI-EDGE: networks of 900-1400 vertices made of 3-/4-/5-cliques only, start prepared "
+        "by the harness's reference corner-swap chain mildly assortative but short of the target, 2|E|/(5(s-1)) accepted swaps "
+        "(measured after/before <= 0.53 on the unchanged tree over 70 runs); a failure on a label-sorted network whose label-shuffled twin approaches is the open finding "
         "C12.approach.label-orientation, any other failure is reported; non-trivial = at least one accepted swap; "
         "distinct = distinct execution digests")
 ASSUMPTIONS = ["approach clause is a bounded-progress observation configured far from the margin (not a theorem)",
@@ -67,6 +69,14 @@ def generate(prng, tier, index):
               "layout": prng.choice(("ascending", "descending", "shuffled", "shuffled")),
               "mode": prng.choice(("assortative", "disassortative")), "frac": prng.choice((0.2, 0.25, 0.3)),
               "build_seed": prng.randrange(2 ** 32), "search_limit": prng.choice((None, None, 20))}
+        if (index // ORIENTED_EVERY) % 3 == 2:
+            # MULTI-EDGE motifs: a network made of 3-/4-/5-cliques only (vertices in 1-4 cliques, labels carry no information),
+            # start prepared by the harness's reference corner-swap chain mildly assortative but SHORT of the target, |E|/10
+            # accepted swaps (the range in which the unchanged library is well behaved on multi-edge motifs from such starts)
+            s = prng.choice((3, 4, 5, 5))
+            return {"variant": "clean", "kind": "oriented", "clique": s, "nv": prng.randrange(900, 1401), "layout": "shuffled",
+                    "mode": "assortative", "prep": prng.choice((0.1, 0.13, 0.15)), "frac": 0.3,
+                    "build_seed": prng.randrange(2 ** 32), "search_limit": None, "degs": [], "mult": [], "m": 0}
         if (index // ORIENTED_EVERY) % 2 == 1:
             # start NEARER to the target than neutral mixing, on its far side: the harness's own reference chain first
             # moves the network to a stronger target of the same kind (fraction prep), the library is then asked for
@@ -245,6 +255,74 @@ def prepare_start(rng, pairs, seen, deg_of, w, sweeps=12):
             seen[f1], seen[f2] = i, j
 
 
+def build_cliques(sc):
+    """Clean network made only of s-cliques: vertex v is in k_v in 1..4 cliques (k assigned to labels at random), cliques
+    edge-disjoint; then `40 x cliques` proposals of the harness's reference corner-swap Metropolis chain (uniform pair of
+    cliques, uniform corner of each, symmetric proposal, accept with min(1, prod w(new) / prod w(old))) towards the
+    assortative matrix at fraction sc['prep'].  Stub: harness code, not library code."""
+    import random as _r
+    rng = _r.Random(sc["build_seed"])
+    s, n = sc["clique"], sc["nv"]
+    k = [rng.choice((1, 2, 3, 4)) for _ in range(n)]
+    while sum(k) % s:
+        k[rng.randrange(n)] = rng.choice((1, 2, 3, 4))
+    cliques, adj = None, None
+    for _ in range(20):
+        adj = [set() for _ in range(n)]
+        cliques = []
+        pending = [v for v in range(n) for _ in range(k[v])]
+        for _ in range(500):
+            if not pending:
+                break
+            rng.shuffle(pending)
+            left = []
+            for i in range(0, len(pending), s):
+                grp = pending[i:i + s]
+                if len(set(grp)) != s or any(b in adj[a] for a in grp for b in grp):
+                    left.extend(grp)
+                    continue
+                for a in grp:
+                    adj[a].update(x for x in grp if x != a)
+                cliques.append(list(grp))
+            pending = left
+        if not pending:
+            break
+    else:
+        return None, None
+    tot = float(sum(k))
+    q = {}
+    for c in k:
+        q[c - 1] = q.get(c - 1, 0.0) + c / tot
+    r = sc["prep"]
+    w = {(a, b): (1 - r) * q[a] * q[b] + (r * q[a] if a == b else 0.0) for a in q for b in q}
+    for _ in range(40 * len(cliques)):
+        i, j = rng.randrange(len(cliques)), rng.randrange(len(cliques))
+        if i == j:
+            continue
+        ci, cj = cliques[i], cliques[j]
+        p, qq = rng.randrange(s), rng.randrange(s)
+        u0, v0 = ci[p], cj[qq]
+        if u0 == v0 or u0 in cj or v0 in ci:
+            continue
+        un = [x for x in ci if x != u0]
+        vn = [x for x in cj if x != v0]
+        if any(x in adj[u0] for x in vn) or any(x in adj[v0] for x in un):
+            continue
+        ratio = 1.0
+        for x in vn:
+            ratio *= w[(k[u0] - 1, k[x] - 1)] / w[(k[v0] - 1, k[x] - 1)]
+        for x in un:
+            ratio *= w[(k[v0] - 1, k[x] - 1)] / w[(k[u0] - 1, k[x] - 1)]
+        if ratio >= 1.0 or rng.random() < ratio:
+            for x in un:
+                adj[u0].discard(x); adj[x].discard(u0); adj[v0].add(x); adj[x].add(v0)
+            for x in vn:
+                adj[v0].discard(x); adj[x].discard(v0); adj[u0].add(x); adj[x].add(u0)
+            ci[p], cj[qq] = v0, u0
+    topos = [{"kind": "clique", "size": s, "name": f"{s}-clique"}]
+    return {"n": n, "topos": topos, "motifs": [{"topo": 0, "verts": list(c)} for c in cliques]}, topos
+
+
 def build_blocks(sc):
     """Simple 2-clique network with mult[i]*m vertices of degree degs[i], uniform stub matching repaired to a simple
     graph (stub: not library code), vertex labels laid out by degree class as the scenario says."""
@@ -318,7 +396,7 @@ def mild_target(G, names, mode, frac):
 
 def oriented_run(sc, ctx, stream):
     """One rewiring of the scenario's network: (status, d0, d1, E, n) with status ok / skip / budget / raised."""
-    spec, topos = build_blocks(sc)
+    spec, topos = build_cliques(sc) if sc.get("clique") else build_blocks(sc)
     if spec is None:
         return "skip", None, None, 0, 0
     names = [t["name"] for t in topos]
@@ -332,7 +410,7 @@ def oriented_run(sc, ctx, stream):
     if d0 < 4 * noise:
         return "skip", d0, None, E, G0.number_of_nodes()
     ejks = JointExcessJointDegreeMatrices({ToolsNames.EJKS: target, ToolsNames.EDGE_NAMES: names})
-    limit = E
+    limit = (2 * E) // (5 * (sc["clique"] - 1)) if sc.get("clique") else E     # same number of moved edges for every clique size: E/5, E/7.5, E/10
     p = {ToolsNames.NETWORK: net, ToolsNames.EJKS: ejks, ToolsNames.CONVERGENCE_LIMIT: limit}
     if sc.get("search_limit") is not None:
         p[ToolsNames.SEARCH_LIMIT] = sc["search_limit"]
@@ -375,13 +453,19 @@ def execute_oriented(sc, ctx):
     ctx.swaps = E + 1
     ctx.probe("oriented_runs")
     ctx.probe(f"oriented_layout_{sc['layout']}")
-    if sc.get("prep"):
+    if sc.get("clique"):
+        ctx.probe("oriented_clique_network_runs")
+        ctx.probe("oriented_clique_ratio_bucket_%d" % min(10, int(ratio * 10)))
+    elif sc.get("prep"):
         ctx.probe("oriented_prepared_start_runs")
         ctx.probe("oriented_prepared_ratio_bucket_%d" % min(10, int(ratio * 10)))
     ctx.check(f"{P}.approach")
     if not d1 < d0:
+        what = (f"{n}-vertex network of {sc['clique']}-cliques ({E} edges, vertices in 1-4 cliques)" if sc.get("clique") else
+                f"{n}-vertex 2-clique network ({E} edges, degrees {sc['degs']})")
+        nsw = ((2 * E) // (5 * (sc["clique"] - 1)) if sc.get("clique") else E) + 1
         detail = (f"L1 distance to the mildly {sc['mode']} full-support target went from {d0:.4f} to {d1:.4f} after "
-                  f"{E + 1} accepted swaps on a {n}-vertex 2-clique network ({E} edges, degrees {sc['degs']}) whose vertex "
+                  f"{nsw} accepted swaps on a {what} whose vertex "
                   f"labels are in {sc['layout']} order of degree"
                   + (f", start prepared by the harness at fraction {sc['prep']} of the way to the extreme {sc['mode']} matrix "
                      f"(target: fraction {sc['frac']})" if sc.get("prep") else ""))
@@ -409,6 +493,10 @@ def shrink(sc):
     if sc.get("kind") == "approach":
         if sc["N"] > 150:
             yield dict(sc, N=150)
+        return
+    if sc.get("kind") == "oriented" and sc.get("clique"):
+        if sc["nv"] > 300:
+            yield dict(sc, nv=sc["nv"] * 2 // 3)
         return
     if sc.get("kind") == "oriented":
         if sc["m"] > 8:
